@@ -1,7 +1,12 @@
-(* C16 - Tables are rectangular with aligned columns. Proved so far: the width arithmetic. *)
+(* C16 - Tables are rectangular with aligned columns. Proved: the width arithmetic, and
+   C16_rectangular: every line MakeTable produces has exactly max(width, minimum) clusters,
+   for every ragged matrix, width, border/header setting and every plain character set, when
+   no cell's clusters can merge with a neighbouring space or border character and
+   upper-casing a header cell neither breaks that nor adds clusters (without the last
+   condition the property is false of the code: known finding D12). *)
 From Coq Require Import List Bool ZArith Lia.
 Import ListNotations.
-From Rosed Require Import Base.ListX Gem.Segment Model.Table Proofs.C16P.
+From Rosed Require Import Base.ListX Gem.Segment Gem.GString Model.Tb Model.Manip Model.Table Proofs.SeamP Proofs.C13P Proofs.C16P Proofs.C16Q.
 Open Scope Z_scope.
 
 (* the surplus width is distributed exactly: quotient to each of the first n columns, one more to the first (s mod n) *)
@@ -27,3 +32,11 @@ Print Assumptions C16_total_width.
 Theorem C16_columns_fit : forall ws i n per rem, 0 <= per -> Forall2 (fun w w' => w <= w') ws (add_space ws i n per rem).
 Proof. exact add_space_ge. Qed.
 Print Assumptions C16_columns_fit.
+
+Theorem C16_rectangular : forall (C : Classifier) (K : ClassifierOk) (U : Upper) data width sep header border charSet,
+  Forall plain charSet ->
+  (forall row c, In row data -> In c row -> all_safe c) ->
+  (header = true -> forall row c, nth_error data 0 = Some row -> In c row -> all_safe (upper_str c) /\ glen (upper_str c) <= glen c) ->
+  Forall (fun l => glen l = Z.max width (min_table_width data border)) (b_lines (make_table data width sep header border charSet)).
+Proof. intros C K U. exact table_rectangular. Qed.
+Print Assumptions C16_rectangular.
